@@ -1248,6 +1248,32 @@ def _space_cases(ctx, C, rng, cs, make_hpr, spaces):
                     "uniform", "loguniform", "reverseloguniform")) for k in keys):
                 ctx.violation("property", "space round trip of %r gives %r" % (cfg, back), case=case,
                               signature=dict(op="round_trip", defect="round_trip_differs", space=True))
+        # fixed last position: member configurations whose last attribute DIFFERS from value_for_last_pos
+        # (data from other resource levels / tasks) are encoded w.r.t. the full range and must decode to
+        # themselves: from_ndarray must not substitute the fixed value.  Checker only (no model case).
+        if value_last is not None:
+            lk_ = S["name_last_pos"]
+            lcont = S["space"][lk_]["kind"] in ("uniform", "loguniform", "reverseloguniform")
+            others, tries = [], 0
+            while len(others) < 3 and tries < 20:
+                tries += 1
+                okv, ov = call(lambda: built[lk_].sample(random_state=rs))
+                if okv and is_member(built[lk_], ov) and not same_value(ov, value_last, lcont) and ov not in others:
+                    others.append(ov)
+            base_cfg = {k: built[k].sample(random_state=rs) for k in keys}
+            if all(is_member(built[k], base_cfg[k]) for k in keys):
+                for ov in others:
+                    cfg2 = dict(base_cfg, **{lk_: ov})
+                    okd, back = call(lambda: hpr.from_ndarray(hpr.to_ndarray(cfg2)))
+                    ctx.count(("fixed_last_other_round_trip", S, repr(ov)), nontrivial=True)
+                    ctx.h("op", "fixed_last_other_round_trip")
+                    if not okd or any(not same_value(back[k], cfg2[k], isinstance(cfg2[k], float) and S["space"][k]["kind"] in (
+                            "uniform", "loguniform", "reverseloguniform")) for k in keys):
+                        ctx.violation("property", "value_for_last_pos=%r is set; round trip of the member configuration %r "
+                                      "(last attribute %s differs from the fixed value) gives %r" % (value_last, cfg2, lk_, back),
+                                      case=case, signature=dict(op="round_trip", defect="round_trip_differs", space=True,
+                                                                fixed_last=True, last_differs_from_fixed_value=True,
+                                                                constructor=S["space"][lk_]["kind"]))
         # decode cube points
         n = hpr.ndarray_size
         vecs = [[0.0] * n, [1.0] * n, [float(rng.choice([0, 1])) for _ in range(n)], [rng.random() for _ in range(n)],
